@@ -17,8 +17,8 @@ invocation of g, the iterator's acquisition, the caller's consumer) is a numbere
 Go sources mirrored (file:line of the current tree):
   stream/map_stream.go:128            FlatMap = Concat(MapWithErrAndCtx(src, mapper.ToErrCtx()))
   stream/map_stream.go:64-77          MapWithErrAndCtx: pull the source, then the mapper (a Mapper cannot return an error)
-  stream/concat_streams.go:39-66      concatProvider.open     (`cpOpen`, `openOuter`, `openNext`)
-  stream/concat_streams.go:68-115     concatProvider.emit     (`emitC`)
+  stream/concat_streams.go:39-69      concatProvider.open     (`cpOpen`, `openOuter`, `openNext`)
+  stream/concat_streams.go:71-118     concatProvider.emit     (`emitC`)
   stream/unsafe_stream_provider.go    addStreamUnsafe / openSubStreamUnsafe / closeSubStreamUnsafe 18-67,
                                       newUnsafeStream: closeFunc 81-113 (`closeFunc`), lifecycle Open with roll-back on
                                       error and on panic 118-140 (`openC`)
@@ -38,10 +38,13 @@ Representation choices (none changes behaviour):
 * the builder of `newUnsafeStream` holds stream 0 (the outer stream) and the inner streams added so far; every inner
   stream but the latest has been closed by `closeSubStreamUnsafe` (its close function is nil again), so the builder
   state that matters is `outerOpen` (stream 0 has a close function) and `curOpen` (stream `currStreamHandle` has one);
-* `cur` is `cp.currProviderFunc` together with the state of the stream it belongs to.  NOTE: nothing resets
-  `cp.currProviderFunc` when the stream is closed, and `cp.open` leaves it as it is when the outer stream is empty
-  (concat_streams.go:51-53) — so it can be *stale* at the start of the next materialisation (`curOpen = false`,
-  `cur = some _`).  The model keeps it, as the code does; see `Props/PipeDynProps.lean` (C18) for what follows.
+* `cur` is `cp.currProviderFunc` together with the state of the stream it belongs to.  Closing does not reset
+  `cp.currProviderFunc`, so between materialisations it can be *stale* (`curOpen = false`, `cur = some _`); since the
+  repair 2541325 `cp.open` starts with `cp.currProviderFunc = nil` (`cpOpen`), so a stale provider is never consulted —
+  whatever the outer source contains in the next materialisation (`Props/PipeDynProps.lean`, C18; the variant without the
+  reset is kept there as `cpOpenOld` with a witness of why the reset is needed).
+* the outer probe source reads its contents when it is opened: `setContents` is what the environment does to the operator
+  object when the source's contents change between two materialisations.
 * callbacks that cannot return an error (Peek's callback, FlatMap's mapper, an iterator's sequence function) raise an
   injected `err` fault as `panic(err)` (`noErr`) — this is what the harness probes do.
 
@@ -232,6 +235,10 @@ structure Obj where
 def Obj.mk0 (r0 : Nat) (xs : List Int) (ops : List OOp) (g : V → Inner) : Obj :=
   { r0 := r0, xs := xs, ops := ops, g := g, rest := xs, outerOpen := false, cur := none, curOpen := false }
 
+/-- the outer source's contents change between two materialisations (the probe source reads them at Open; at rest its
+    index is 0) -/
+def Obj.setContents (c : Obj) (xs : List Int) : Obj := { c with xs := xs, rest := xs }
+
 /-- `streamsProviderFunc(ctx)`: the outer stream's provider = MapWithErrAndCtx(src, mapper) -/
 def pullOuter (c : Obj) (w : World) : Res Inner × Obj × World :=
   match emitRest c.r0 c.ops c.rest w with
@@ -264,13 +271,14 @@ def openNext (c : Obj) (s : Inner) (w : World) : Res Unit × Obj × World :=
   | (.panic b, _, w) => (.panic b, c, w)                      -- the assignment does not happen
   | (res, _, w) => (res, { c with cur := none }, w)          -- `nil, err` is assigned
 
-/-- concatProvider.open -/
+/-- concatProvider.open; its first statement forgets the inner stream of an earlier materialisation
+    (`cp.currProviderFunc = nil`, repair 2541325) -/
 def cpOpen (c : Obj) (w : World) : Res Unit × Obj × World :=
-  match openOuter c w with
+  match openOuter { c with cur := none } w with
   | (.val _, c, w) =>
     match pullOuter c w with
     | (.val s, c, w) => openNext c s w
-    | (.eof, c, w) => (.val (), c, w)          -- no streams: `currProviderFunc` stays what it was
+    | (.eof, c, w) => (.val (), c, w)          -- no streams: `currProviderFunc` is nil
     | (res, c, w) => (castRes res, c, w)
   | (res, c, w) => (res, c, w)
 
